@@ -194,6 +194,125 @@ fn run_case(i: u64, rng: &mut Rng, rep: &mut Report, verbose: bool) {
     rep.case(Some(h));
 }
 
+// ---------------- results that pass through the PagedResults adapter ----------------
+
+/// The adapter removes its own control from the final result; everything else the server encoded in
+/// the final SearchResultDone (result fields, the other controls, in the server's order) and every
+/// entry with its controls must reach the caller unchanged.
+fn run_paged_case(i: u64, rng: &mut Rng, rep: &mut Report, verbose: bool) {
+    use crate::lanes::c13::{paged_value, parse_paged, PAGED_OID};
+    use crate::msg::CritEnc;
+    use ldap3::adapters::{Adapter, EntriesOnly, PagedResults};
+    let pages = 1 + rng.usize(3);
+    let behind = rng.bool();
+    let tokp = format!("t:{}:", i);
+    // plan: entries per page, final result and its controls
+    let mut plan_entries: Vec<Vec<(Resp, Option<Vec<RespCtl>>)>> = vec![];
+    for p in 0..pages {
+        let n = rng.usize(4);
+        plan_entries.push((0..n).map(|k| (Resp::Entry { dn: format!("e={}.{}.{},dc=x", i, p, k).into_bytes(), attrs: vec![(b"a".to_vec(), vec![gen::gen_bytes(rng, false)])] }, gen::gen_resp_controls(rng))).collect());
+    }
+    let final_res = gen::gen_res(rng, &tokp);
+    let mut others: Vec<RespCtl> = gen::gen_resp_controls(rng).unwrap_or_default();
+    others.retain(|c| c.oid != PAGED_OID);
+    if rng.bool() {
+        for k in 0..1 + rng.usize(4) {
+            others.push(RespCtl { oid: format!("1.2.3.4.{}", k), crit: CritEnc::Absent, val: Some(format!("v{}", k).into_bytes()) });
+        }
+    }
+    let pos = rng.usize(others.len() + 1);
+    let mut final_ctrls = others.clone();
+    final_ctrls.insert(pos, RespCtl { oid: PAGED_OID.into(), crit: CritEnc::Absent, val: Some(paged_value(rng.below(100) as i64, b"")) });
+    let mut srng = rng.fork();
+    let chunk = *rng.pick(&[Chunking::Whole, Chunking::Random, Chunking::Bytewise]);
+    let rt = runtime(rng.next());
+    let (pe, fr, fc) = (plan_entries.clone(), final_res.clone(), final_ctrls.clone());
+    let (items, result, outcome) = rt.block_on(async move {
+        let c = connect();
+        let mut ldap = c.ldap;
+        let mut server = c.server;
+        let srv = tokio::spawn(async move {
+            while let Some(w) = server.request().await {
+                let m = match w.msg {
+                    Ok(m) => m,
+                    Err(_) => break,
+                };
+                if !matches!(m.op, Req::Search { .. }) {
+                    continue;
+                }
+                let cookie = m.controls.as_ref().and_then(|cs| cs.iter().find(|c| c.oid == PAGED_OID.as_bytes())).and_then(|c| c.val.as_ref()).and_then(|v| parse_paged(v)).map(|x| x.1).unwrap_or_default();
+                let k: usize = String::from_utf8_lossy(&cookie).parse().unwrap_or(0);
+                let mut nodes = vec![];
+                for (r, cs) in pe.get(k).cloned().unwrap_or_default() {
+                    nodes.push(resp_node(m.id, &r, cs.as_deref()));
+                }
+                if k + 1 < pe.len() {
+                    let pc = RespCtl { oid: PAGED_OID.into(), crit: CritEnc::Absent, val: Some(paged_value(0, (k + 1).to_string().as_bytes())) };
+                    nodes.push(resp_node(m.id, &Resp::Done(Res::ok("page")), Some(&[pc])));
+                } else {
+                    nodes.push(resp_node(m.id, &Resp::Done(fr.clone()), Some(&fc)));
+                }
+                for n in nodes {
+                    let mut er = srng.fork();
+                    let bytes = Enc::random(&mut er).to_vec(&n);
+                    server.send_chunked(&bytes, chunk, &mut srng);
+                }
+            }
+        });
+        let adapters: Vec<Box<dyn Adapter<'static, String, Vec<String>>>> = if behind { vec![Box::new(EntriesOnly::new()), Box::new(PagedResults::new(3))] } else { vec![Box::new(PagedResults::new(3))] };
+        let mut items = vec![];
+        let mut result = None;
+        let outcome = match world::watchdog(async {
+            let mut st = ldap.streaming_search_with(adapters, "dc=x", ldap3::Scope::Subtree, "(a=b)", vec!["*".to_string()]).await?;
+            while let Some(e) = st.next().await? {
+                items.push(world::item_out(&e));
+            }
+            result = Some(world::res_out(&st.finish().await));
+            Ok::<_, ldap3::LdapError>(())
+        })
+        .await
+        {
+            Ok(Ok(())) => "ok".to_string(),
+            Ok(Err(e)) => format!("Err({})", e),
+            Err(()) => "Hung".into(),
+        };
+        drop(ldap);
+        srv.abort();
+        let _ = c.driver.await;
+        (items, result, outcome)
+    });
+    let replay = json!({"lane":"paged_results","case":i});
+    if outcome != "ok" {
+        rep.violation("C03:paged-search:call-failed", outcome.clone(), replay.clone());
+    }
+    let want_items: Vec<ItemOut> = plan_entries.iter().flatten().map(|(m, c)| ItemOut { node: m.op_node(), ctrls: expect_ctrls(c), is_ref: false, is_intermediate: false }).collect();
+    if want_items != items {
+        rep.violation(format!("C03:paged-search:entries:{}", if want_items.len() != items.len() { "count" } else { "content-or-controls" }), format!("want {} got {}", trunc(&want_items), trunc(&items)), replay.clone());
+    }
+    if let Some(got) = result {
+        let want = expect_res(&final_res, &Some(others.clone()));
+        if want != got {
+            let d = field_diff(&Outcome::Res(want.clone()), &Outcome::Res(got.clone()));
+            let d = if d == "?" && want.ctrls.len() == got.ctrls.len() { "controls:order".to_string() } else { d };
+            rep.violation(format!("C03:paged-search:final-result:{}", d), format!("paging control was at position {} of {}\nwant {}\n got {}", pos, final_ctrls.len(), trunc(&want), trunc(&got)), replay.clone());
+        }
+    }
+    if verbose {
+        println!("pages {} behind {} others {} pos {} -> {}", pages, behind, others.len(), pos, outcome);
+    }
+    rep.count("paged_final_results_checked", 1);
+    rep.count(&format!("other_controls_in_final_result_{}", others.len().min(5)), 1);
+    if i < 2 {
+        rep.sample(json!({"lane":"paged_results","case":i,"pages":pages,"other_controls":others.len(),"paging_control_position":pos,"entries":want_items.len()}));
+    }
+    rep.case(Some(fnv(format!("{:?}{:?}{}", final_ctrls, final_res, pages).as_bytes())));
+}
+
+pub fn paged_results(ctx: &Ctx) -> Report {
+    let n = ctx.n(20_000, 10_000_000);
+    par_cases(ctx, "paged_results", n, ctx.secs(20, 400), |i, rng, rep| run_paged_case(i, rng, rep, false))
+}
+
 fn trunc<T: std::fmt::Debug>(t: &T) -> String {
     format!("{:?}", t).chars().take(700).collect()
 }
